@@ -72,6 +72,10 @@ pub struct Case {
     /// panic (a worker that panics after writing its part of the entry)
     #[serde(default)]
     pub unwinding: bool,
+    /// the owner is released through `Instrumented::from_parts((), owner).emit()` instead of a
+    /// plain drop (the documented way to end an instrumented unit of work)
+    #[serde(default)]
+    pub via_emit: bool,
 }
 
 #[derive(Default, Clone, Debug)]
@@ -302,6 +306,9 @@ pub fn check(case: &Case) -> CaseResult {
                     parent_alive = false;
                     if case.unwinding {
                         no_panic("parent-drop-while-unwinding", || drop_while_unwinding(p))?;
+                    } else if case.via_emit {
+                        classes.push("parent-released-through-instrumented-emit");
+                        no_panic("parent-emit", || metrique::instrument::Instrumented::from_parts((), p).emit())?;
                     } else {
                         no_panic("parent-drop", || drop(p))?;
                     }
@@ -574,6 +581,7 @@ fn exhaustive(ctx: &mut Ctx) {
                             order: vec![],
                             jitter: vec![],
                             unwinding: false,
+                    via_emit: false,
                         };
                         match check(&case) {
                             Ok(c) => {
@@ -631,6 +639,7 @@ fn exhaustive(ctx: &mut Ctx) {
             order: vec![],
             jitter: vec![],
             unwinding: false,
+                    via_emit: false,
         };
         ctx.report_violation("c13-random", f, serde_json::to_value(&case).unwrap(), format!("{case:?}"));
     }
@@ -649,14 +658,15 @@ pub fn run(ctx: &mut Ctx) {
             if q { 30_000 } else { 800_000 },
         )
         .threads(ctx.tier.pick(8, 16))
-        .mandatory(&["wait-mode", "discard-mode", "second-open", "force-flush", "parent-dropped-before-wait-guard", "wait-for-data-ready", "guard-dropped-while-unwinding", "delay-flush", "open-slot-deprecated", "parent-as-handle-clones"]),
+        .mandatory(&["wait-mode", "discard-mode", "second-open", "force-flush", "parent-dropped-before-wait-guard", "wait-for-data-ready", "guard-dropped-while-unwinding", "delay-flush", "open-slot-deprecated", "parent-as-handle-clones", "parent-released-through-instrumented-emit"]),
         || {
-            (prop::collection::vec(arb_op(), 0..40), prop::bool::weighted(0.2)).prop_map(|(ops, unwinding)| Case {
+            (prop::collection::vec(arb_op(), 0..40), prop::bool::weighted(0.2), prop::bool::weighted(0.3)).prop_map(|(ops, unwinding, via_emit)| Case {
                 ops,
                 concurrent: false,
                 order: vec![],
                 jitter: vec![],
                 unwinding,
+                via_emit,
             })
         },
         check,
@@ -678,6 +688,7 @@ pub fn run(ctx: &mut Ctx) {
                     order: vec![],
                     jitter: vec![],
                     unwinding: false,
+                    via_emit: false,
                 }
             })
         },
@@ -707,6 +718,7 @@ pub fn run(ctx: &mut Ctx) {
                         order,
                         jitter,
                         unwinding: false,
+                    via_emit: false,
                     }
                 })
         },
